@@ -13,6 +13,7 @@ import (
 func init() { register("C06", propC06) }
 
 func propC06(c *Ctx) propInfo {
+	c.statelessCodecs("E17.stateless", excStateless, "boc")
 	c.bitStringWriters()
 	c.capacityGuards()
 	c.availabilityGuards()
@@ -26,6 +27,7 @@ func propC06(c *Ctx) propInfo {
 	c.writersDoNotMutateInput()
 	c.cellCapacity()
 	c.capacityCountGuards()
+	c.cursorOnSuccess()
 	c.bigIntChunks()
 	c.oneBitSigned()
 	c.fiftHex()
